@@ -7,7 +7,7 @@ func c20Mutants4() []core.Mutant {
 	return []core.Mutant{
 		{Name: "user-id-rendered-through-float64", File: "osmapi/user.go",
 			Find:    `fmt.Sprintf("%s/user/%d", ds.baseURL(), id)`,
-			Replace: `fmt.Sprintf("%s/user/%.0f", ds.baseURL(), float64(id))`, ExpectRule: "H4", ExpectConstruct: "arg-fidelity@(*Datasource).User id"},
+			Replace: `fmt.Sprintf("%s/user/%.0f", ds.baseURL(), float64(id))`, ExpectRule: "H4", ExpectConstruct: "arg-fidelity@(*Datasource).User id via-float64"},
 		{Name: "nodeversion-version-rendered-through-float32", File: "osmapi/node.go",
 			Find:    `fmt.Sprintf("%s/node/%d/%d", ds.baseURL(), id, v)`,
 			Replace: `fmt.Sprintf("%s/node/%d/%.0f", ds.baseURL(), id, float32(v))`, ExpectRule: "H4", ExpectConstruct: "arg-fidelity@(*Datasource).NodeVersion version"},
@@ -21,7 +21,7 @@ func c20Mutants4() []core.Mutant {
 		bounds.MinLon, bounds.MinLat,
 		bounds.MaxLon, bounds.MaxLat,
 		params)
-`, ExpectRule: "H4", ExpectConstruct: "arg-fidelity@(*Datasource).Map bounds"},
+`, ExpectRule: "H4", ExpectConstruct: "arg-fidelity@(*Datasource).Map bounds 2-decimals"},
 		{Name: "notes-bbox-formatfloat-five-decimals-float32", File: "osmapi/note.go",
 			Find: `	params = append(params, fmt.Sprintf("bbox=%f,%f,%f,%f",
 		bounds.MinLon, bounds.MinLat,
@@ -29,6 +29,6 @@ func c20Mutants4() []core.Mutant {
 `,
 			Replace: `	edge := func(v float64) string { return fmt.Sprintf("%g", float32(v)) }
 	params = append(params, "bbox="+edge(bounds.MinLon)+","+edge(bounds.MinLat)+","+edge(bounds.MaxLon)+","+edge(bounds.MaxLat))
-`, ExpectRule: "H4", ExpectConstruct: "arg-fidelity@(*Datasource).Notes bounds"},
+`, ExpectRule: "H4", ExpectConstruct: "arg-fidelity@(*Datasource).Notes bounds float32"},
 	}
 }
